@@ -24,12 +24,21 @@ const (
 )
 
 type modEntry struct {
-	all  bool
-	heap string
-	sort string
-	kind modKind
-	ref  string
-	idx  string
+	all    bool
+	heap   string
+	sort   string
+	kind   modKind
+	ref    string
+	idx    string
+	nested bool // modElems over struct elements: covers every (nested) field and inner array of the elements of ref
+}
+
+// nestedElemPred: r lies in the same allocation as the backing array arr (its elements, their nested sub-objects and
+// inner arrays). Backing arrays of slices are allocations of their own, so for them this is exactly "inside an element
+// of arr"; for a slice of an array field it is coarser (the whole enclosing object) — used consistently on both sides
+// of every contract, which keeps it sound.
+func nestedElemPred(r, arr string) string {
+	return fmt.Sprintf("(= (rootid %s) (rootid %s))", r, arr)
 }
 
 // allFieldEntries lists entries for every scalar component of every field (recursively) of the struct at ref.
@@ -244,6 +253,7 @@ func (c *Ctx) elemEntries(arr string, el types.Type, all bool, idx func() string
 			if all {
 				e.kind = modElems
 				e.ref = arr
+				e.nested = true
 			} else {
 				// specific element: single ref with the sub-path re-rooted
 				e.ref = strings.Replace(e.ref, "rnil", fmt.Sprintf("(mkelem %s %s)", arr, idx()), 1)
@@ -312,6 +322,8 @@ func (c *Ctx) havocMods(s *State, mods []modEntry, allocBase string) {
 			case m.kind == modSingle:
 				f := c.freshConst(s, "hv", Sort(inner))
 				cur = fmt.Sprintf("(store %s %s %s)", cur, m.ref, f)
+			case m.kind == modElems && m.nested:
+				quant = append(quant, m)
 			case m.kind == modElems && isElemHeap(name):
 				f := c.freshConst(s, "hv", Sort(inner))
 				cur = fmt.Sprintf("(store %s %s %s)", cur, m.ref, f)
@@ -334,7 +346,11 @@ func (c *Ctx) havocMods(s *State, mods []modEntry, allocBase string) {
 		n := c.havocHeapNamed(s, name, hs)
 		var conds []string
 		for _, m := range quant {
-			conds = append(conds, fmt.Sprintf("(and ((_ is mkelem) r) (= (earr r) %s))", m.ref))
+			if m.nested {
+				conds = append(conds, nestedElemPred("r", m.ref))
+			} else {
+				conds = append(conds, fmt.Sprintf("(and ((_ is mkelem) r) (= (earr r) %s))", m.ref))
+			}
 		}
 		cond := conds[0]
 		if len(conds) > 1 {
@@ -425,10 +441,12 @@ func (c *Ctx) checkFrame(s *State, snap map[string]string, mods []modEntry, allo
 		if needIdx {
 			j := c.freshConst(s, "fj", Sort(firstIndexSort(innerSort(hs))))
 			for _, m := range es {
-				switch m.kind {
-				case modSingle, modElems:
+				switch {
+				case m.kind == modElems && m.nested:
+					prem = append(prem, "(not "+nestedElemPred(r, m.ref)+")")
+				case m.kind == modSingle, m.kind == modElems:
 					prem = append(prem, fmt.Sprintf("(not (= %s %s))", r, m.ref))
-				case modElemAt:
+				case m.kind == modElemAt:
 					prem = append(prem, fmt.Sprintf("(not (and (= %s %s) (= %s %s)))", r, m.ref, j, m.idx))
 				}
 			}
@@ -436,6 +454,8 @@ func (c *Ctx) checkFrame(s *State, snap map[string]string, mods []modEntry, allo
 		} else {
 			for _, m := range es {
 				switch {
+				case m.kind == modElems && m.nested:
+					prem = append(prem, "(not "+nestedElemPred(r, m.ref)+")")
 				case m.kind == modSingle, m.kind == modElems && isElemHeap(name):
 					prem = append(prem, fmt.Sprintf("(not (= %s %s))", r, m.ref))
 				case m.kind == modElems:
@@ -501,6 +521,11 @@ func (c *Ctx) call(s *State, fr *Frame, x *ssa.Call) []*State {
 		for _, a := range com.Args {
 			args = append(args, c.val(s, a))
 		}
+		if fn.Name() == "append" {
+			if forks := c.appendOneStruct(s, fr, x, args); forks != nil {
+				return forks
+			}
+		}
 		res := c.builtin(s, fr, x, fn.Name(), args, com.Args)
 		if res != nil {
 			fr.regs[x] = res
@@ -523,7 +548,7 @@ func (c *Ctx) call(s *State, fr *Frame, x *ssa.Call) []*State {
 	}
 	// unknown function value: havoc result, log the call; assumed not to write modelled state
 	c.assumptions["calls of function values do not modify the caller's modelled state"] = true
-	s.calllog = append(s.calllog, "fnvalue")
+	s.calllog = append(s.calllog, "fnvalue", fnValueName(com.Value))
 	if x.Type() != nil {
 		if tt, ok := x.Type().(*types.Tuple); !ok || tt.Len() > 0 {
 			fr.regs[x] = c.freshVal(s, "fnres", x.Type())
@@ -1292,6 +1317,11 @@ func (c *Ctx) mapValComps(t types.Type) []comp {
 		}
 		return out
 	}
+	if at, ok := t.Underlying().(*types.Array); ok {
+		if es, ok := c.ar.sortOfScalar(at.Elem()); ok {
+			return []comp{{"", Sort(fmt.Sprintf("(Array %s %s)", c.ar.idxSort(), es))}}
+		}
+	}
 	cs := c.ar.comps(t)
 	if cs == nil {
 		unsup("map value type %s", t)
@@ -1345,6 +1375,15 @@ func (c *Ctx) mapValAt(s *State, heap map[string]string, base string, ks Sort, m
 		}
 		return sv
 	}
+	if at, ok := t.Underlying().(*types.Array); ok {
+		es, ok := c.ar.sortOfScalar(at.Elem())
+		if !ok {
+			unsup("map value array of non-scalar elements")
+		}
+		as := fmt.Sprintf("(Array %s %s)", c.ar.idxSort(), es)
+		h := c.mapHeapTerm(s, heap, base+"#val"+path, fmt.Sprintf("(Array Ref (Array %s %s))", ks, as))
+		return ArrayV{Term: fmt.Sprintf("(select (select %s %s) %s)", h, m, kt), Ty: t}
+	}
 	cs := c.ar.comps(t)
 	rd := func(cp comp) string {
 		h := c.mapHeapTerm(s, heap, base+"#val"+path+cp.Path, fmt.Sprintf("(Array Ref (Array %s %s))", ks, cp.S))
@@ -1365,6 +1404,19 @@ func (c *Ctx) mapValStore(s *State, base string, ks Sort, m, kt string, t types.
 		for i := 0; i < st.NumFields(); i++ {
 			c.mapValStore(s, base, ks, m, kt, st.Field(i).Type(), path+"."+st.Field(i).Name(), sv.F[i])
 		}
+		return
+	}
+	if at, ok := t.Underlying().(*types.Array); ok {
+		es, _ := c.ar.sortOfScalar(at.Elem())
+		as := fmt.Sprintf("(Array %s %s)", c.ar.idxSort(), es)
+		av, ok := v.(ArrayV)
+		if !ok {
+			unsup("map store of non-array value into array component")
+		}
+		name := base + "#val" + path
+		hs := fmt.Sprintf("(Array Ref (Array %s %s))", ks, as)
+		h := c.heapTerm(s, name, hs)
+		c.setHeap(s, name, hs, fmt.Sprintf("(store %s %s (store (select %s %s) %s %s))", h, m, h, m, kt, av.Term))
 		return
 	}
 	cs := c.ar.comps(t)
@@ -1478,11 +1530,15 @@ func (c *Ctx) mapCardMath(s *State, m string, mt *types.Map) string {
 type RangeIterV struct {
 	Map     string
 	MT      *types.Map
-	Visited *localCell // holds ArrayV-like term of sort (Array K Bool)
+	Visited string // term of sort (Array K Bool): keys already yielded
 	Ty      types.Type
 }
 
 func (r RangeIterV) Type() types.Type { return r.Ty }
+
+func (c *Ctx) visitedSort(mt *types.Map) Sort {
+	return Sort(fmt.Sprintf("(Array %s Bool)", c.mapKeySort(mt)))
+}
 
 func (c *Ctx) rangeInit(s *State, fr *Frame, x *ssa.Range) {
 	mt, ok := x.X.Type().Underlying().(*types.Map)
@@ -1491,11 +1547,11 @@ func (c *Ctx) rangeInit(s *State, fr *Frame, x *ssa.Range) {
 	}
 	m := c.val(s, x.X).(Scalar)
 	ks := c.mapKeySort(mt)
-	cell := &localCell{id: 1000 + len(fr.locals), val: Scalar{fmt.Sprintf("((as const (Array %s Bool)) false)", ks), Sort(fmt.Sprintf("(Array %s Bool)", ks)), nil}}
-	fr.rangeCells = append(fr.rangeCells, cell)
-	fr.regs[x] = RangeIterV{Map: m.T, MT: mt, Visited: cell, Ty: x.Type()}
+	fr.regs[x] = RangeIterV{Map: m.T, MT: mt, Visited: fmt.Sprintf("((as const (Array %s Bool)) false)", ks), Ty: x.Type()}
 }
 
+// rangeNext: the next key of a map range is an arbitrary present key that was not yielded before; the range ends
+// when every present key has been yielded (entries deleted during the range are simply not yielded).
 func (c *Ctx) rangeNext(s *State, fr *Frame, x *ssa.Next) []*State {
 	if x.IsString {
 		unsup("range over string")
@@ -1506,18 +1562,18 @@ func (c *Ctx) rangeNext(s *State, fr *Frame, x *ssa.Next) []*State {
 	}
 	mt := it.MT
 	ks := c.mapKeySort(mt)
-	visited := it.Visited.val.(Scalar).T
+	visited := it.Visited
 	okc := c.freshConst(s, "rangeok", SBool)
 	k := c.freshVal(s, "rangekey", mt.Key()).(Scalar)
 	val, present := c.mapRead(s, nil, it.Map, mt, k)
-	// ok => present(k) and not visited(k); !ok => all present keys visited
 	c.assume(s, fmt.Sprintf("(=> %s (and %s (not (select %s %s))))", okc, present, visited, k.T))
 	base := "M:" + typeName(mt)
 	ph := c.heapTerm(s, base+"#present", fmt.Sprintf("(Array Ref (Array %s Bool))", ks))
 	c.assume(s, fmt.Sprintf("(=> (not %s) (forall ((k %s)) (! (=> (select (select %s %s) k) (select %s k)) :pattern ((select (select %s %s) k)))))", okc, ks, ph, it.Map, visited, ph, it.Map))
-	nv := c.bind(s, "visited", Sort(fmt.Sprintf("(Array %s Bool)", ks)), fmt.Sprintf("(ite %s (store %s %s true) %s)", okc, visited, k.T, visited))
-	it.Visited.val = Scalar{nv, Sort(fmt.Sprintf("(Array %s Bool)", ks)), nil}
-	fr.src["visited"] = Scalar{visited, Sort(fmt.Sprintf("(Array %s Bool)", ks)), nil}
+	nv := c.bind(s, "visited", c.visitedSort(mt), fmt.Sprintf("(ite %s (store %s %s true) %s)", okc, visited, k.T, visited))
+	it.Visited = nv
+	fr.regs[x.Iter] = it
+	fr.src["visited"] = GhostSetV{Term: nv}
 	c.typeRangeAssume(s, val)
 	fr.regs[x] = TupleV{E: []Val{Scalar{okc, SBool, types.Typ[types.Bool]}, k, val}, Ty: x.Type()}
 	return nil
@@ -1557,6 +1613,8 @@ func (c *Ctx) modPremises(name string, mods []modEntry, r, j string) (prem []str
 		case m.kind == modElemAt:
 			needIdx = true
 			prem = append(prem, fmt.Sprintf("(not (and (= %s %s) (= %s %s)))", r, m.ref, j, m.idx))
+		case m.kind == modElems && m.nested:
+			prem = append(prem, "(not "+nestedElemPred(r, m.ref)+")")
 		case m.kind == modSingle, m.kind == modElems && isElemHeap(name), m.kind == modMapAll:
 			prem = append(prem, fmt.Sprintf("(not (= %s %s))", r, m.ref))
 		case m.kind == modElems:
@@ -1601,4 +1659,122 @@ func (c *Ctx) havocLoop(s *State, mods []modEntry, allocBase string) {
 			c.assume(s, fmt.Sprintf("(forall ((r Ref)) (! (=> (and %s) (= (select %s r) (select %s r))) :pattern ((select %s r))))", strings.Join(prem, " "), n, old, n))
 		}
 	}
+}
+
+// fnValueName names a call through a function value for the ghost call log: "field:<name>" when the value was loaded
+// from a struct field, "param:<name>" for a function parameter, "local:<name>" otherwise.
+func fnValueName(v ssa.Value) string {
+	switch x := v.(type) {
+	case *ssa.UnOp:
+		if fa, ok := x.X.(*ssa.FieldAddr); ok {
+			st := fa.X.Type().Underlying().(*types.Pointer).Elem().Underlying().(*types.Struct)
+			return "field:" + st.Field(fa.Field).Name()
+		}
+		if fv, ok := x.X.(*ssa.FreeVar); ok {
+			return "free:" + fv.Name()
+		}
+	case *ssa.Field:
+		st := x.X.Type().Underlying().(*types.Struct)
+		return "field:" + st.Field(x.Field).Name()
+	case *ssa.Parameter:
+		return "param:" + x.Name()
+	case *ssa.FreeVar:
+		return "free:" + x.Name()
+	}
+	return "local:" + v.Name()
+}
+
+// appendOneStruct: append(s, x) of exactly one struct element is executed on two forked paths, which keeps the heap
+// updates quantifier-free where possible:
+//   in place  (len < cap): plain stores of the element's fields at index len of the same backing array;
+//   growing   (len == cap): a fresh backing array whose first len elements equal the old ones (one quantified copy
+//             per field heap), then plain stores for the new element.
+func (c *Ctx) appendOneStruct(s *State, fr *Frame, x *ssa.Call, args []Val) []*State {
+	dst, ok := args[0].(SliceV)
+	if !ok {
+		return nil
+	}
+	el := dst.Ty.Underlying().(*types.Slice).Elem()
+	if structOf(el) == nil {
+		return nil
+	}
+	src, ok := args[1].(SliceV)
+	if !ok || src.Len != c.ar.idx(1) {
+		return nil
+	}
+	srcElemPtr := c.elemAddr(s, src.Arr, c.elemIdx(src.Off, c.ar.idx(0)), el)
+	val := c.loadAt(s, nil, srcElemPtr, el)
+	newLen := c.bind(s, "applen", c.ar.idxSort(), c.idxAdd(dst.Len, c.ar.idx(1)))
+	fits := c.idxCmp(token.LEQ, newLen, dst.Cap)
+	// path 1: in place
+	s1 := s
+	s2 := s.clone()
+	c.nextPathID++
+	s2.pathID = c.nextPathID
+	{
+		c.assume(s1, fits)
+		f1 := s1.top()
+		ptr := c.elemAddr(s1, dst.Arr, c.elemIdx(dst.Off, dst.Len), el)
+		c.storeAt(s1, ptr, el, val)
+		f1.regs[x] = SliceV{dst.Arr, dst.Off, newLen, dst.Cap, dst.Ty}
+	}
+	// path 2: grow
+	{
+		c.assume(s2, simplifyNot(fits))
+		f2 := s2.top()
+		fresh := c.allocRef(s2)
+		newCap := c.freshConst(s2, "appcap", c.ar.idxSort())
+		c.assume(s2, c.idxCmp(token.GEQ, newCap, newLen))
+		c.assume(s2, c.idxCmp(token.LEQ, newCap, c.ar.idx(1<<40)))
+		c.copyStructElems(s2, fresh, dst, el)
+		ptr := c.elemAddr(s2, fresh, dst.Len, el)
+		c.storeAt(s2, ptr, el, val)
+		f2.regs[x] = SliceV{fresh, c.ar.idx(0), newLen, newCap, dst.Ty}
+	}
+	return []*State{s1, s2}
+}
+
+// copyStructElems: the first len(dst) elements of the fresh array `fresh` (offset 0) equal dst's elements.
+func (c *Ctx) copyStructElems(s *State, fresh string, dst SliceV, el types.Type) {
+	var walk func(t types.Type, path func(base string) string)
+	walk = func(t types.Type, path func(base string) string) {
+		u := structOf(t)
+		for i := 0; i < u.NumFields(); i++ {
+			ft := u.Field(i).Type()
+			ii := i
+			if structOf(ft) != nil && isAggregate(ft) {
+				walk(ft, func(base string) string { return fmt.Sprintf("(mksub %s %d)", path(base), ii) })
+				continue
+			}
+			k := "k"
+			newRef := path(fmt.Sprintf("(mkelem %s %s)", fresh, k))
+			oldRef := path(fmt.Sprintf("(mkelem %s %s)", dst.Arr, c.elemIdx(dst.Off, k)))
+			guard := fmt.Sprintf("(and %s %s)", c.idxCmp(token.LEQ, c.ar.idx(0), k), c.idxCmp(token.LSS, k, dst.Len))
+			if at, ok := ft.Underlying().(*types.Array); ok {
+				es, ok := c.ar.sortOfScalar(at.Elem())
+				if !ok {
+					continue
+				}
+				name := elemHeapName(at.Elem(), "")
+				hs := c.elemHeapSort(es)
+				h := c.heapTerm(s, name, hs)
+				n := c.havocHeapNamed(s, name, hs)
+				aref := fmt.Sprintf("(mksub %s %d)", newRef, ii)
+				oref := fmt.Sprintf("(mksub %s %d)", oldRef, ii)
+				c.assume(s, fmt.Sprintf("(forall ((k %s)) (! (=> %s (= (select %s %s) (select %s %s))) :pattern ((select %s %s))))", c.ar.idxSort(), guard, n, aref, h, oref, n, aref))
+				c.assume(s, fmt.Sprintf("(forall ((r Ref)) (! (=> (not (= (rootid r) (rootid %s))) (= (select %s r) (select %s r))) :pattern ((select %s r))))", fresh, n, h, n))
+				continue
+			}
+			for _, cp := range c.ar.comps(ft) {
+				name := fieldHeapName(typeName(t), u.Field(i).Name(), cp.Path)
+				hs := fmt.Sprintf("(Array Ref %s)", cp.S)
+				h := c.heapTerm(s, name, hs)
+				n := c.havocHeapNamed(s, name, hs)
+				c.assume(s, fmt.Sprintf("(forall ((k %s)) (! (=> %s (= (select %s %s) (select %s %s))) :pattern ((select %s %s))))", c.ar.idxSort(), guard, n, newRef, h, oldRef, n, newRef))
+				// only objects inside the fresh array change
+				c.assume(s, fmt.Sprintf("(forall ((r Ref)) (! (=> (not (= (rootid r) (rootid %s))) (= (select %s r) (select %s r))) :pattern ((select %s r))))", fresh, n, h, n))
+			}
+		}
+	}
+	walk(el, func(base string) string { return base })
 }
